@@ -1,19 +1,36 @@
 ------------------------------------ MODULE ThermalExpansion_mc ------------------------------------
+(* Model-checking harness for ThermalExpansion: bounds, constant sets, and the emission of every explored edge and
+   every distinct state (with all observables) as JSON for the replay on real armi components.               *)
 EXTENDS ThermalExpansion
-Bound == TLCGet("level") <= MaxLevel
+\* Behaviours of up to MaxLevel calls.  The bound sits in the next-state relation (states at level MaxLevel + 1 have
+\* no successors) and not only in the CONSTRAINT: TLC evaluates the invariants on every generated successor that
+\* fails the constraint, without de-duplication, which made the boundary level dominate the run time.
+Go    == TLCGet("level") <= MaxLevel
+ATemp == Go /\ \E c \in Comp, t \in Temp : SetTemperature(c, t)
+ADim  == Go /\ \E c \in Comp, d \in MutDim, v \in 1..NV, cold \in BOOLEAN, retain \in BOOLEAN : SetDim(c, d, v, cold, retain)
+ALink == Go /\ \E lp \in LinkPairs : SetLink(lp[1], lp[2], lp[3], lp[4])
+NextB == ATemp \/ ADim \/ ALink
+Bound == TLCGet("level") <= MaxLevel + 1
 View  == state
-\* component 1 is the shape/material under test, component 2 a partner whose two lengths are unconstrained
+\* component 1 is the shape/material under test, component 2 a partner whose two lengths are unconstrained:
+\* 1.e2 <- 2.e1 is the classic "clad.id <- fuel.od"; 2.e2 <- 1.e2 makes chains 2.e2 -> 1.e2 -> 2.e1 possible
 McLinks == {<<1, "e2", 2, "e1">>, <<2, "e2", 1, "e2">>}
-McKindsAll  == {<<k1, k2>> : k1 \in Kinds, k2 \in {"solid", "fluid", "inert"}}
-McKindsEmit == {<<k1, k2>> : k1 \in Kinds, k2 \in {"solid", "fluid"}}
-McKindsSolid == {<<"solid", "solid">>}
-McKindsQuick == {<<k1, "solid">> : k1 \in Kinds} \cup {<<"solid", "fluid">>, <<"solid", "inert">>, <<"fluid", "fluid">>}
+McKindsAll   == {<<k1, k2>> : k1 \in Kinds, k2 \in {"solid", "fluid", "inert"}}
+McKindsEmit  == {<<k1, k2>> : k1 \in Kinds, k2 \in {"solid", "fluid"}}
+McKindsQuick == {<<"solid", "solid">>, <<"solid", "fluid">>, <<"inert", "solid">>, <<"custom", "solid">>, <<"fluid", "inert">>, <<"void", "solid">>}
 \* <<Tin1, Thot1, Tin2, Thot2>>
-McTempsAll3 == {<<a, b, c, d>> : a \in 1..2, b \in 1..3, c \in 1..2, d \in 2..3}
-McTempsEmit == {<<1, 2, 1, 3>>, <<2, 1, 1, 2>>, <<3, 3, 2, 2>>}
+McTempsAll3  == {<<a, b, c, d>> : a \in 1..2, b \in 1..3, c \in 1..2, d \in 2..3}
+McTempsEmit  == {<<1, 2, 1, 3>>, <<2, 1, 1, 2>>, <<3, 3, 2, 2>>}
 McTempsEmit4 == {<<1, 3, 1, 4>>, <<2, 1, 1, 2>>, <<4, 4, 2, 2>>, <<3, 2, 4, 1>>}
-McTempsOne  == {<<1, 2, 1, 3>>}
+McTempsOne   == {<<1, 2, 1, 3>>}
+McTempsTwo   == {<<1, 2, 1, 3>>, <<2, 1, 2, 2>>}
+\* compact state key (a flat array of integers) for the edges; the full variables are printed once per state
+DimIdx(d)  == CASE d = "e1" -> 1 [] d = "e2" -> 2 [] d = "n" -> 3
+KindIdx(k) == CASE k = "solid" -> 1 [] k = "inert" -> 2 [] k = "fluid" -> 3 [] k = "void" -> 4 [] k = "custom" -> 5
+EntryKey(x) == IF x.k = "v" THEN <<0, x.bc, DimIdx(x.bd), x.b, x.e>> ELSE <<1, x.c, DimIdx(x.d), 0, 0>>
+CompKey(c) == <<KindIdx(kind[c]), Tin[c], T0[c], T[c], nd[c]>> \o EntryKey(p[c]["e1"]) \o EntryKey(p[c]["e2"]) \o EntryKey(p[c]["n"])
+Key == CompKey(1) \o CompKey(2)
 \* one line per explored edge and one line per distinct state (with every observable)
-Emit  == PrintT(ToJson([lvl |-> TLCGet("level"), from |-> Vars, act |-> act', to |-> Vars', err |-> err']))
-EmitState == PrintT(ToJson([st |-> Vars, obs |-> Obs]))
+Emit  == PrintT(ToJson([lvl |-> TLCGet("level"), from |-> Key, act |-> act', to |-> Key', err |-> err']))
+EmitState == PrintT(ToJson([st |-> Key, vars |-> Vars, obs |-> Obs]))
 =====================================================================================================
